@@ -10,12 +10,14 @@ package main
 
 import (
 	"container/list"
+	"io"
 	"sort"
 	"strconv"
 	"sync"
 	"testing"
 	"time"
 
+	"github.com/tinode/chat/server/logs"
 	kit "github.com/tinode/chat/server/zzverifkit"
 	"pgregory.net/rapid"
 )
@@ -299,6 +301,7 @@ func c17GateJudge(what string, same bool, err error, rejected, forwarded bool, f
 }
 
 func TestC17Gate(t *testing.T) {
+	logs.Init(io.Discard, "stdFlags") // every refused request logs a warning
 	r := kit.Begin("C17", "TestC17Gate")
 	defer r.Flush()
 	r.Extra("topicproxy", "Cluster.TopicProxy takes a ClusterResp, which carries no ring signature: master-to-proxy responses are not gated by the code and are not judged here")
